@@ -69,14 +69,17 @@ class Report:
     def count(self, name, n):
         self.analysed[name] = n
 
-    def floor(self, name, actual, minimum):
+    def floor(self, name, actual, minimum, need=None):
         """fail closed when fewer anchors than were confirmed by hand are found"""
         self.analysed[name] = actual
         # `minimum` is the number counted on the reviewed tree. Site counts move a little under behaviour-preserving
         # edits (a checked `len - 1` becomes `checked_sub`, two loops are merged, an idiom is spelled differently), so
         # counts above 3 may lose up to a fifth before the rule is considered to have lost its subject; small counts
         # (one per implementation) are exact.
-        need = minimum if minimum <= 3 else (minimum * 4) // 5
+        # `need` overrides the threshold for obligations that exist only where the code performs a particular
+        # operation (rewriting one implementation's kernel legitimately removes all of its sites).
+        if need is None:
+            need = minimum if minimum <= 3 else (minimum * 4) // 5
         if actual < need:
             self.violation("ANCHOR-MISSING", name,
                            "found %d %s, expected at least %d (%d counted on the reviewed tree): the rule would pass vacuously"
